@@ -3,14 +3,21 @@
 Trusted base added here (each entry is true of the library for every input, or is a lemma that
 follows by induction from a definition given next to it):
 
-* h5py `Group.create_dataset(name, shape=|data=, chunks=...)`: pre-condition
+* h5py `Group.create_dataset(name, shape=|data=, chunks=...[, maxshape=])`: pre-condition
   `chunks is None or chunks is True or all(0 < c <= s for c, s in zip(chunks, shape))`
-  (h5py raises ValueError otherwise for a fixed-shape dataset) - DESIGN 2.3 / appendix B.
-* `numpy.diff`, `numpy.power` (scalar; only `x >= 1 and y >= 0 => result >= 1`),
-  `a[idx] += c` for a duplicate-free index array (duplicate freedom is an obligation),
-  monotonicity lemma of `numpy.cumsum` over non-negative arrays.
-* spec functions `cat_off`, `row_off`, `span_off` (prefix sums with their recursive definition
-  and the frame lemma "equal prefixes have equal prefix sums").
+  (h5py raises ValueError otherwise for a fixed-shape dataset; with `maxshape` only positivity is
+  checked) - DESIGN 2.3 / appendix B.
+* opt-in per contract (`ghost=dict(h5_shapes=True)`), assumptions A-H5SHAPE / A-H5ITEM:
+  `x.shape` / `x.chunks` of an abstracted h5py object (deterministic; shape entries >= 0; chunks
+  None or positive per dimension and NOT assumed <= shape), `group['name']` deterministic,
+  `dataset[()]` has the size of the dataset, `arr.max()/min()` need a non-empty array.
+* `numpy.diff` (+ run lemma), `numpy.power` (scalar; only `x >= 1 and y >= 0 => result >= 1`),
+  `numpy.copy`, `a[idx] += c` for a duplicate-free index array (duplicate freedom is an
+  obligation), lemmas for `numpy.cumsum` (monotone over non-negative arrays) and `numpy.unique`
+  (identity on strictly increasing arrays), `scipy.sparse.cs[rc]_matrix(dense)` denotes `dense`.
+* spec functions `cat_off`, `row_off`, `span_off` (prefix sums: recursive definition, monotonicity
+  and frame lemma), `final('name')` / `final_bound('name')` (value of a local at the return point;
+  proof-only).
 """
 import ast
 import z3
@@ -27,13 +34,16 @@ from ..symexec import select
 # h5py create_dataset
 # ---------------------------------------------------------------------------------------------
 def _dims(v):
-    """list of Int terms of a shape-like value, or None when it is not modelled"""
+    """list of Int terms of a shape-like value; a SymVal (List[Int]) when the rank is symbolic;
+    None when it is not modelled"""
     if v is None:
         return None
     if v.ty == T.INT:
         return [v.term]
     if v.ty[0] == 'tuple' and all(t == T.INT for t in v.ty[1]):
         return [select(v, ('fld', i)).term for i in range(len(v.ty[1]))]
+    if v.ty[0] in ('list', 'arr') and v.ty[1] == T.INT:
+        return v
     return None
 
 
@@ -68,6 +78,31 @@ def m_create_dataset(ev, state, node, recv):
         ctx.notes.append(f"L{node.lineno}: create_dataset chunk pre-condition not modelled "
                          f"(chunks / shape abstracted)")
         return fresh(T.OPAQUE, 'dataset')
+    resizable = 'maxshape' in kws and not (isinstance(kws['maxshape'], ast.Constant)
+                                           and kws['maxshape'].value is None)
+    if resizable:
+        ctx.notes.append(f"L{node.lineno}: create_dataset with maxshape: only chunk positivity is "
+                         f"checked (chunks <= maxshape is not modelled)")
+    if isinstance(cd, SymVal) or isinstance(sd, SymVal):
+        # symbolic rank (shapes / chunk tuples read from another dataset)
+        def as_seq(x):
+            if isinstance(x, SymVal):
+                return seq_len(x), (lambda i: seq_at(x, i))
+            return z3.IntVal(len(x)), (lambda i, x=x: _select_int(x, i))
+        nc, atc = as_seq(cd)
+        ns, ats = as_seq(sd)
+        i = z3.Int(fresh_name('cdim'))
+        if guard is not None:
+            ctx.guards.append(guard)
+        try:
+            ctx.oblige(state, nc == ns, 'ValueError', node, 'create_dataset: chunks has the rank of shape')
+            body = 0 < atc(i) if resizable else z3.And(0 < atc(i), atc(i) <= ats(i))
+            ctx.oblige(state, z3.ForAll([i], z3.Implies(z3.And(0 <= i, i < nc), body)), 'ValueError', node,
+                       "create_dataset: 0 < chunks[i] <= shape[i] for every dimension (h5py pre-condition)")
+        finally:
+            if guard is not None:
+                ctx.guards.pop()
+        return fresh(T.OPAQUE, 'dataset')
     if len(cd) != len(sd):
         ctx.oblige(state, z3.BoolVal(False), 'ValueError', node,
                    'create_dataset: chunks has the rank of shape')
@@ -76,12 +111,19 @@ def m_create_dataset(ev, state, node, recv):
         ctx.guards.append(guard)
     try:
         for i, (c, s) in enumerate(zip(cd, sd)):
-            ctx.oblige(state, z3.And(0 < c, c <= s), 'ValueError', node,
+            ctx.oblige(state, 0 < c if resizable else z3.And(0 < c, c <= s), 'ValueError', node,
                        f"create_dataset: 0 < chunks[{i}] <= shape[{i}] (h5py pre-condition)")
     finally:
         if guard is not None:
             ctx.guards.pop()
     return fresh(T.OPAQUE, 'dataset')
+
+
+def _select_int(terms, i):
+    r = terms[-1]
+    for k in range(len(terms) - 2, -1, -1):
+        r = z3.If(i == k, terms[k], r)
+    return r
 
 
 prims.OPAQUE_METHODS['create_dataset'] = m_create_dataset
@@ -219,6 +261,8 @@ def np_copy(ev, state, node):
 #   members 'data' / 'indices' / 'indptr' of the sparse encodings, which are 1-D by the h5ad spec)
 # ---------------------------------------------------------------------------------------------
 _core_attribute = numpy_prims.attribute
+H5_SHAPE = z3.Function('h5_shape', T.sort_of(T.OPAQUE), T.sort_of(T.TList(T.INT)))
+H5_CHUNKS = z3.Function('h5_chunks', T.sort_of(T.OPAQUE), T.sort_of(T.TOpt(T.TList(T.INT))))
 
 
 def _attribute(ev, state, base, attr, node):
@@ -226,9 +270,24 @@ def _attribute(ev, state, base, attr, node):
     if r is not None:
         return r
     c = ev.ctx.contract
+    if base.ty == T.OPAQUE and attr == 'chunks' and c is not None and c.ghost.get('h5_shapes') \
+            and not ev.ctx.spec_mode:
+        # chunk shape of a dataset: None (contiguous) or one positive entry per dimension.  NOT
+        # assumed <= shape: a resizable dataset (maxshape) may have chunks larger than its shape
+        # (anndata writes empty sparse arrays that way)
+        ty = T.TOpt(T.TList(T.INT))
+        v = SymVal(ty, H5_CHUNKS(base.term))
+        inner = select(v, ('some',))
+        shp = SymVal(T.TList(T.INT), H5_SHAPE(base.term))
+        i = z3.Int(fresh_name('ci'))
+        state.assume(z3.Implies(z3.Not(T.opt_is_none(ty, v.term)),
+                                z3.And(seq_len(inner) == seq_len(shp),
+                                       z3.ForAll([i], seq_at(inner, i) >= 1))))
+        ev.ctx.trusted_used.add('A-H5SHAPE')
+        return v
     if base.ty == T.OPAQUE and attr == 'shape' and c is not None and c.ghost.get('h5_shapes') \
             and not ev.ctx.spec_mode:
-        v = fresh(T.TList(T.INT), 'h5shape')
+        v = SymVal(T.TList(T.INT), H5_SHAPE(base.term))    # the same shape every time it is read
         i = z3.Int(fresh_name('si'))
         state.assume(seq_len(v) >= 1,     # only shape[0] is licensed by the assumption
                      z3.ForAll([i], seq_at(v, i) >= 0),
